@@ -135,7 +135,21 @@ def gen_plan(rng, idx, fault_population=False):
         first = frs[0]
         rest = frs[1:]
         rng.shuffle(rest)
-        files[name] = {'frags': [first] + rest}
+        ordered = [first] + rest
+        if not local_def and rng.random() < 0.3:
+            # the file begins with an inclusion right away
+            k = next((j for j, fr in enumerate(ordered) if fr.get('edge')), None)
+            if k:
+                ordered.insert(0, ordered.pop(k))
+        r_ = rng.random()
+        if r_ < 0.12:
+            # editor footer: the file ends inside a comment, without newline
+            ordered.append(docgen.frag('footer', rng.choice(
+                ['%%% End: ' + stem, '% vim: set ft=tex', '%'])))
+        elif r_ < 0.3:
+            while ordered[-1]['s'].endswith('\n'):
+                ordered[-1]['s'] = ordered[-1]['s'][:-1]
+        files[name] = {'frags': ordered}
         # edge order = order of appearance after the shuffle
         order = []
         for fr in files[name]['frags']:
